@@ -27,6 +27,20 @@ CLAIMED = {
   text="Proof of the receiver's per-call protocol obligations: loop invariant id counter == number of STATs received (ghost), an id is registered under the zero-based position of its STAT, pipe registered before the REQ is sent, each path requested at most once with its announced id, DATA routed to the registered pipe (Close iff empty payload) before the next receive, nil result only after io.EOF.",
   note="Not decided: interleavings of ids and STAT/DATA races, 'all content on disk before FIN' beyond sequential order. Assumed: Stream contract, channel semantics, trusted generated ResetVT/SizeVT.",
   design="DESIGN.md section 3 C07"),
+ "C09": dict(
+  text="Proof: ComparePath equals the separator-lowest first-difference order (strict order lemmas), the walk callback never reports the root and reports every other entry at most once (exactly once unless cancelled) under its root-relative path, the stat constructor records path/mode-without-socket-bit/mtime/size/owner/link target as given by lstat/readlink, the inode map makes the first name of an inode the file and every later name a link to that first name (map otherwise unchanged), device numbers via major/minor, sub-root prefixing of forwarded paths, and the sub-root sort reads the slice it sorts. Not decided: completeness/stability of the kernel listing and that filepath.WalkDir visits name-sorted (assumed).",
+  note="Assumed: filepath.WalkDir pre-order over sorted ReadDir, lstat/readlink/xattr effects, filepath.Rel uninterpreted, sort.Slice permutes only its argument.",
+  design="DESIGN.md section 3 C09"),
+ "C10": dict(
+  category="exploration",
+  technique="bounded exhaustive enumeration of the real filtered walk against two reference filters (the equality depends on a dependency's regexp matcher and cannot be stated as a contract); plus contract-based proof of the walk's own bookkeeping",
+  text="Whether a pattern matches is decided by moby/patternmatcher (regexp); no contract within reach can state it, so the central equality is decided by a bounded stand-in, labelled bounded: the real filterFS.Walk over 3 on-disk trees x every include/exclude list of the stated bound from a 26-pattern pool is compared with the naive reference of the statement and with an unpruned incremental reference (pruning unobservable, order, no duplicates). Proved for all inputs in addition (reported separately, never mixed into the counts): the visited-directory stack only holds separator-terminated prefixes, nothing is emitted for skipped entries, the map function is consulted before any emission, the pruning prefix tests compare separator-terminated strings, patternWithoutTrailingGlob.",
+  note="Known finding (dependency): the walk equals the incremental reference everywhere but differs from the naive one for lists like [a/b, !a]. Bounded: small trees, short pattern lists.",
+  design="DESIGN.md section 3 C10"),
+ "C11": dict(
+  text="Proof: filterFS.Open decides visibility through the same incremental matcher entry point as Walk (found by the contract, repaired), an open failure yields only the terminator (sendFile), the hard-link re-canonicalisation forwards a link whose source was not seen as a plain file and records it as representative, later members name a recorded representative, Send installs the filter; the receiver's link validator accepts exactly links to earlier non-links. Walk/Open agreement over pattern lists is additionally checked by a bounded stand-in (not counted as proved).",
+  note="Assumed: matcher results uninterpreted; FS interface contracts; parent-closure of filtered streams rests on the C10 stand-in.",
+  design="DESIGN.md section 3 C11"),
  "C12": dict(
   text="Proof (all inputs, all iterations): ComparePath is proved equal to the first-difference path order with the separator lowest (three postconditions + termination + index safety + no overflow), the order lemmas (irreflexive, asymmetric, transitive) are discharged over the spec, and the validator's soundness direction, stack discipline and representation invariant are proved per call. The completeness direction (accepts every good sequence) is a bounded stand-in and is labelled so in the evidence.",
   note="Assumes: govc's SSA->SMT translation; string extensionality axiom; uninterpreted filepath.Clean/Dir/Base/Join/IsAbs and bytewise string order; sort.Search contract (derived from its loop invariant); os.FileInfo methods pure.",
